@@ -51,18 +51,22 @@ def lineOfJson (j : Json) : Except String Line := do
     | k => throw s!"line kind {k}"
   pure ⟨kind, indent, size⟩
 
-def linesOf (j : Json) (k : String) : Except String (List Line) := do (← getArr j k).toList.mapM lineOfJson
+/-- an absent array is the empty one (the harness omits empty fields) -/
+def arrOf (j : Json) (k : String) : Array Json := (getArr j k).toOption.getD #[]
+
+def linesOf (j : Json) (k : String) : Except String (List Line) := (arrOf j k).toList.mapM lineOfJson
 
 def frameOfJson (j : Json) : Except String Frame := do
   match ← getStr j "k" with
   | "ws" => pure .ws
+  | "barrier" => pure .ws        -- harness-side synchronisation point: no bytes
   | "garbage" => pure .garbage
   | "truncated" => pure .truncated
   | "value" => pure (.value (ofLean (← j.getObjVal? "json")))
   | k => throw s!"frame kind {k}"
 
-def textsOf (j : Json) (k : String) : Except String (List Text) := do (← getArr j k).toList.mapM textOfJson
-def natsOf (j : Json) (k : String) : Except String (List Nat) := do (← getArr j k).toList.mapM (·.getNat?)
+def textsOf (j : Json) (k : String) : Except String (List Text) := (arrOf j k).toList.mapM textOfJson
+def natsOf (j : Json) (k : String) : Except String (List Nat) := (arrOf j k).toList.mapM (·.getNat?)
 
 def whyStr : Why → String
   | .status => "status" | .parse => "parse" | .missingResult => "missingResult"
@@ -135,7 +139,7 @@ def handle (op : String) (j : Json) : Except String Json := do
   | "stdio" =>
     let H ← textsOf j "handlers"
     let ids ← natsOf j "ids"
-    let fs ← (← getArr j "frames").toList.mapM frameOfJson
+    let fs ← (arrOf j "frames").toList.mapM frameOfJson
     let next ← getNat j "next"
     let st := stdioRun F H { tbl := Table.init ids } fs
     let st' := stdioRun F H { st with tbl := Table.init [next] } [.value (wfResult next (okResult "next"))]
